@@ -1,4 +1,5 @@
--- expect-wf: bad 'break' is not the last statement
+-- expect-wf[jit]: bad 'break' is not the last statement
+-- expect-wf[5.3]: ok
 while true do
   break
   print('x')
